@@ -3,7 +3,10 @@ Decided statically: finish and finish_serial hand identical keys (first / last k
 (i) to the index constructor and build the same aggregate — they differ only in the constructor called; the two end
 indices are private, of the key-verifying map type, and the only operation ever applied to them in the crate is the
 key-verified `get` (so answers cannot depend on the MPHF's slot layout, whatever schedule built it); find_link's
-decision table (a k-mer is found exactly when it is a key of the consulted end index, with the specified side/flip)."""
+decision table (a k-mer is found exactly when it is a key of the consulted end index, with the specified side/flip) and find_edges'
+table, both over an index layer whose ground truth is "this probe is / is not the end k-mer of a node": key-verified look-ups answer from
+it, keyless hashes may alias an absent probe to an arbitrary node (so every unconfirmed use shows as a phantom link); the crate's own
+threads, if any, are explored as explicit schedules (each spawned closure atomic, every order of the pending ones)."""
 from .. import dt_graph, structural
 
 ASSUMPTIONS = ["boomphf's parallel builder returns a valid MPHF under every schedule (dependency code; its validity is the assumption "
@@ -12,7 +15,8 @@ ASSUMPTIONS = ["boomphf's parallel builder returns a valid MPHF under every sche
 
 def run(F, rep):
     rep.engines.update(["E2-DT", "E1"])
-    dt_graph.finish_tables(F, rep, "C19.1")
-    dt_graph.index_usage_rules(F, rep, "C19.2")
-    structural.own_concurrency(F, rep, "C19.3")
-    dt_graph.find_link_table(F, rep, "C19.4")
+    rep.run(dt_graph.finish_tables, F, rep, "C19.1")
+    rep.run(dt_graph.index_usage_rules, F, rep, "C19.2")
+    rep.run(structural.own_concurrency, F, rep, "C19.3")
+    rep.run(dt_graph.find_link_table, F, rep, "C19.4")
+    rep.run(dt_graph.find_edges_table, F, rep, "C19.4")
